@@ -52,10 +52,11 @@ fn scenario(ctx: &Ctx, idx: u64) -> Report {
         let routers: Vec<SocketAddr> = if use_routers { nodes.iter().take(2).map(|n| n.addr).collect() } else { vec![] };
         let contacts: Vec<SocketAddr> = nodes.iter().skip(2).take(rng.gen_range(1..6)).map(|n| n.addr).collect();
         let owned: HashSet<SocketAddr> = nodes.iter().map(|n| n.addr).collect();
+        let world_id_list: Vec<Id> = nodes.iter().map(|n| n.id).collect();
         let mut world = World::new(nodes);
         world.keep_served = false;
         // names that responding nodes add to every list: ghosts, the node's own id, the routers
-        let ghosts: Vec<(Id, SocketAddr)> = (0..rng.gen_range(0..4)).map(|i| (gen::rand_id(&mut rng), poison_addr(is_v6, 900_000 + i))).collect();
+        let ghosts: Vec<(Id, SocketAddr)> = (0..rng.gen_range(0..5)).map(|i| (gen::rand_id(&mut rng), poison_addr(is_v6, 900_000 + i))).collect();
         let own_id_addr = poison_addr(is_v6, 950_000);
         let mut extras = ghosts.clone();
         extras.push((id, own_id_addr));
@@ -111,7 +112,21 @@ fn scenario(ctx: &Ctx, idx: u64) -> Report {
                     3 => Query::GetPeers { info_hash: gen::id(&mut rng), want: None },
                     _ => Query::AnnouncePeer { info_hash: gen::id(&mut rng), port: None, token: gen::bytes(&mut rng, 20) },
                 };
-                Krpc::query(gen::tid(&mut rng), gen::rand_id(&mut rng), q).encode()
+                // the id the stranger claims: usually fresh, sometimes the id of a node this node knows
+                // only by hearsay (a ghost that never answers), of a responsive contact, or its own id
+                let claimed = match rng.gen_range(0..10) {
+                    0..=2 if !ghosts.is_empty() => {
+                        report.count("unsolicited_queries_claiming_a_hearsay_id");
+                        ghosts.choose(&mut rng).unwrap().0
+                    }
+                    3 => {
+                        report.count("unsolicited_queries_claiming_a_contact_id");
+                        world_id_list.choose(&mut rng).copied().unwrap_or(id)
+                    }
+                    4 => id,
+                    _ => gen::rand_id(&mut rng),
+                };
+                Krpc::query(gen::tid(&mut rng), claimed, q).encode()
             } else {
                 // a response whose transaction id cannot derive from any request of this node
                 poison_senders.insert(sender);
@@ -279,7 +294,7 @@ pub fn check(tier: Tier) -> Check {
                scripted nodes whose answers additionally name ghosts, the node's own id at a foreign address, the \
                router addresses and duplicates) receives 120 (quick) / 300 (thorough) unsolicited datagrams \
                spread over its life (while bootstrapping, idle, while searching), each from a fresh address: \
-               queries of all four kinds, and responses whose transaction id has a length other than 8 (random, \
+               queries of all four kinds (claiming a fresh id, the id of a node known only by hearsay, of a responsive contact, or the node's own id), and responses whose transaction id has a length other than 8 (random, \
                or one of the node's own live ids lengthened / shortened) or an activity prefix >= 2^32, naming 0..50 fresh nodes and carrying fresh peer values. Every 4th \
                step load_contacts() and the hook registry dump are read: no unsolicited sender, no name from \
                an impossible response, no router address, not the own id; every address reported good must have \
@@ -293,6 +308,7 @@ pub fn check(tier: Tier) -> Check {
         streams: vec![Stream::new("unsolicited", tier.pick(200, 4000), scenario)],
         require: vec![
             ("unsolicited_queries", tier.pick(8_000, 400_000)),
+            ("unsolicited_queries_claiming_a_hearsay_id", tier.pick(1_000, 50_000)),
             ("responses_with_wrong_tid_length", tier.pick(3_000, 150_000)),
             ("responses_with_never_used_prefix", tier.pick(3_000, 150_000)),
             ("responses_with_live_id_of_wrong_length", tier.pick(2_000, 100_000)),
